@@ -184,25 +184,27 @@ def queueEvent (internal : Bool) (e : Event) : M σ ω Unit :=
     if internal then { st with intQ := queueInsert due e st.intQ }
     else { st with extQ := queueInsert due e st.extQ })
 
-/-- `_raise_event(MetaEvent(...))` -/
+/-- `listener(event)`: the listener may raise, change the outside world, and have events queued
+    (externally) on this interpreter -/
 def callListener (m : Event) (l : Nat) : M σ ω Unit := fun rs =>
-  let (r, w, qs) := env.deliver l m rs.st.time rs.world
-  let st := qs.foldl (fun st e => { st with extQ := queueInsert (st.time + e.delay) e st.extQ }) rs.st
-  (r, { rs with st := st, world := w })
+  let r := env.deliver l m rs.st.time rs.world
+  let st := r.2.2.foldl (fun st e => { st with extQ := queueInsert (st.time + e.delay) e st.extQ }) rs.st
+  (r.1, { rs with st := st, world := r.2.1 })
 
-def raiseMeta (m : Event) : M σ ω Unit := do
-  M.emit (.metaEv m)
-  let st ← M.get
-  M.forEach (callListener env m) st.listeners
+/-- `_raise_event(MetaEvent(...))` -/
+def raiseMeta (m : Event) : M σ ω Unit :=
+  M.bind (M.emit (.metaEv m)) (fun _ =>
+    M.bind M.get (fun st => M.forEach (callListener env m) st.listeners))
 
 /-- `_raise_event(event)` for what code sent -/
 def raiseSent : Sent → M σ ω Unit
   | .notify m => raiseMeta env m
-  | .internal e => do
-    queueEvent true e
-    raiseMeta env { name := "event sent", data := [("event", e.toVal)] }
-    if e.hasDelay then
-      raiseMeta env { name := "delayed event sent", data := [("event", e.toVal)] }
+  | .internal e =>
+    M.bind (queueEvent true e) (fun _ =>
+      M.bind (raiseMeta env { name := "event sent", data := [("event", e.toVal)] }) (fun _ =>
+        if e.hasDelay then
+          raiseMeta env { name := "delayed event sent", data := [("event", e.toVal)] }
+        else M.pure ()))
 
 /-- `_select_event(consume=False)` -/
 def peekEvent (st : IState σ) : Option Event :=
@@ -228,22 +230,24 @@ def popEvent (st : IState σ) : Option Event × IState σ :=
        | (d', e') :: r' => if d' ≤ st.time then (some e', { st with extQ := r' }) else (none, st)
        | [] => (none, st))
 
-/-- `_evaluate_contract_conditions(obj, cond_type, step)`; `ev` = `getattr(step, 'event', None)` -/
-def evalContract (kind : CondKind) (obj : Obj) (ev : Option Event) : M σ ω Unit := do
-  if env.ignoreContract then return ()
-  if kind == .pre && (!(obj.conds .inv).isEmpty || !(obj.conds .post).isEmpty) then
-    M.modify (fun st => { st with ctx := env.E.freeze st.ctx obj })
-  let rec go (i : Nat) : List Code → M σ ω Unit
-    | [] => pure ()
-    | code :: rest => do
-      let st ← M.get
+/-- the loop over the (lazily evaluated) unsatisfied conditions: the first false one raises -/
+def evalConds (kind : CondKind) (obj : Obj) (ev : Option Event) : Nat → List Code → M σ ω Unit
+  | _, [] => M.pure ()
+  | i, code :: rest =>
+    M.bind M.get (fun st =>
       let r := env.E.cond st kind obj code ev
-      M.emit (.cond kind obj.id i ev r)
-      match r with
-      | none => M.throw .codeError
-      | some false => M.throw (kind.err obj.id code.src)
-      | some true => go (i + 1) rest
-  go 0 (obj.conds kind)
+      M.bind (M.emit (.cond kind obj.id i ev r)) (fun _ =>
+        match r with
+        | none => M.throw .codeError
+        | some false => M.throw (kind.err obj.id code.src)
+        | some true => evalConds kind obj ev (i + 1) rest))
+
+/-- `_evaluate_contract_conditions(obj, cond_type, step)`; `ev` = `getattr(step, 'event', None)` -/
+def evalContract (kind : CondKind) (obj : Obj) (ev : Option Event) : M σ ω Unit :=
+  if env.ignoreContract then M.pure () else
+  M.bind (if kind == .pre && (!(obj.conds .inv).isEmpty || !(obj.conds .post).isEmpty)
+          then M.modify (fun st => { st with ctx := env.E.freeze st.ctx obj }) else M.pure ())
+    (fun _ => evalConds env kind obj ev 0 (obj.conds kind))
 
 def stateObj (n : Name) : M σ ω StateDef :=
   match env.chart.stateFor n with
@@ -251,183 +255,200 @@ def stateObj (n : Name) : M σ ω StateDef :=
   | none => M.throw .statechartError
 
 /-- run a piece of code through the evaluator and keep what it did to the context -/
-def runCode (k : ExecKind) (ev : Option Event) : M σ ω (List Sent) := do
-  let st ← M.get
-  let (ctx', r) := env.E.exec st k ev
-  M.modify (fun st => { st with ctx := ctx' })
-  match r with
-  | some sent => pure sent
-  | none => M.throw .codeError
+def runCode (k : ExecKind) (ev : Option Event) : M σ ω (List Sent) :=
+  M.bind M.get (fun st =>
+    M.bind (M.modify (fun st' => { st' with ctx := (env.E.exec st k ev).1 })) (fun _ =>
+      match (env.E.exec st k ev).2 with
+      | some sent => M.pure sent
+      | none => M.throw .codeError))
+
+/-- what exiting the compound state `s` (from configuration `cfg0`) stores for its child `ch`:
+    `.ok none` = `ch` is not a history state; `.error` = the `assert` fails / unknown state -/
+def memoryOf (c : Chart) (cfg0 : List Name) (s : StateDef) (ch : Name) : Except Err (Option (List Name)) :=
+  match c.kindOf ch with
+  | some .deep =>
+    if (cfg0.filter (fun x => (c.descendants s.name).contains x)).length < 1 then .error .assertion
+    else .ok (some (cfg0.filter (fun x => (c.descendants s.name).contains x)))
+  | some .shallow =>
+    if (cfg0.filter (fun x => (c.childrenFor s.name).contains x)).length != 1 then .error .assertion
+    else .ok (some (cfg0.filter (fun x => (c.childrenFor s.name).contains x)))
+  | some _ => .ok none
+  | none => .error .statechartError
 
 /-- history bookkeeping when a compound state is exited (inside `_apply_step`) -/
 def saveMemory (cfg0 : List Name) (s : StateDef) : List Name → M σ ω Unit
-  | [] => pure ()
-  | ch :: rest => do
-    match env.chart.kindOf ch with
-    | some .deep =>
-      let active := cfg0.filter (fun x => (env.chart.descendants s.name).contains x)
-      if active.length < 1 then M.throw .assertion
-      M.modify (fun st => { st with memory := assocSet ch active st.memory })
-    | some .shallow =>
-      let active := cfg0.filter (fun x => (env.chart.childrenFor s.name).contains x)
-      if active.length != 1 then M.throw .assertion
-      M.modify (fun st => { st with memory := assocSet ch active st.memory })
-    | some _ => pure ()
-    | none => M.throw .statechartError
-    saveMemory cfg0 s rest
+  | [] => M.pure ()
+  | ch :: rest =>
+    match memoryOf env.chart cfg0 s ch with
+    | .error e => M.throw e
+    | .ok none => saveMemory cfg0 s rest
+    | .ok (some a) =>
+      M.bind (M.modify (fun st => { st with memory := assocSet ch a st.memory }))
+        (fun _ => saveMemory cfg0 s rest)
 
-def exitState (cfg0 : List Name) (step : Micro) (s : StateDef) : M σ ω (List Sent) := do
-  M.emit (.onExit s.name)
-  let sent ← runCode env (.onExit s) none
-  if s.kind == .compound then saveMemory env cfg0 s (env.chart.childrenFor s.name)
-  let st ← M.get
-  if !st.config.contains s.name then M.throw .assertion
-  M.modify (fun st => { st with config := st.config.filter (fun x => x != s.name) })
-  evalContract env .post (.state s) step.event
-  raiseMeta env { name := "state exited", data := [("state", .str s.name)] }
-  pure sent
+def exitState (cfg0 : List Name) (step : Micro) (s : StateDef) : M σ ω (List Sent) :=
+  M.bind (M.emit (.onExit s.name)) (fun _ =>
+  M.bind (runCode env (.onExit s) none) (fun sent =>
+  M.bind (if s.kind == .compound then saveMemory env cfg0 s (env.chart.childrenFor s.name) else M.pure ()) (fun _ =>
+  M.bind M.get (fun st =>
+  M.bind (if !st.config.contains s.name then M.throw .assertion else M.pure ()) (fun _ =>
+  M.bind (M.modify (fun st => { st with config := st.config.filter (fun x => x != s.name) })) (fun _ =>
+  M.bind (evalContract env .post (.state s) step.event) (fun _ =>
+  M.bind (raiseMeta env { name := "state exited", data := [("state", .str s.name)] }) (fun _ =>
+  M.pure sent))))))))
 
-def enterState (step : Micro) (s : StateDef) : M σ ω (List Sent) := do
-  evalContract env .pre (.state s) step.event
-  M.emit (.onEntry s.name)
-  let sent ← runCode env (.onEntry s) none
-  M.modify (fun st => { st with
-    config := if st.config.contains s.name then st.config else st.config ++ [s.name],
-    entryTime := assocSet s.name st.time st.entryTime,
-    idleTime := assocSet s.name st.time st.idleTime })
-  raiseMeta env { name := "state entered", data := [("state", .str s.name)] }
-  pure sent
+def enterState (step : Micro) (s : StateDef) : M σ ω (List Sent) :=
+  M.bind (evalContract env .pre (.state s) step.event) (fun _ =>
+  M.bind (M.emit (.onEntry s.name)) (fun _ =>
+  M.bind (runCode env (.onEntry s) none) (fun sent =>
+  M.bind (M.modify (fun st => { st with
+      config := if st.config.contains s.name then st.config else st.config ++ [s.name],
+      entryTime := assocSet s.name st.time st.entryTime,
+      idleTime := assocSet s.name st.time st.idleTime })) (fun _ =>
+  M.bind (raiseMeta env { name := "state entered", data := [("state", .str s.name)] }) (fun _ =>
+  M.pure sent)))))
 
-def fireTransition (step : Micro) (t : Trans) : M σ ω (List Sent) := do
-  evalContract env .pre (.trans t) step.event
-  evalContract env .inv (.trans t) step.event
-  M.emit (.action t.id step.event)
-  let sent ← runCode env (.action t) step.event
-  evalContract env .post (.trans t) step.event
-  evalContract env .inv (.trans t) step.event
-  M.modify (fun st => { st with idleTime := assocSet t.source st.time st.idleTime })
-  raiseMeta env { name := "transition processed",
-                  data := [("source", .str t.source), ("target", optNameVal t.target),
-                           ("event", optEventVal step.event)] }
-  pure sent
+def fireTransition (step : Micro) (t : Trans) : M σ ω (List Sent) :=
+  M.bind (evalContract env .pre (.trans t) step.event) (fun _ =>
+  M.bind (evalContract env .inv (.trans t) step.event) (fun _ =>
+  M.bind (M.emit (.action t.id step.event)) (fun _ =>
+  M.bind (runCode env (.action t) step.event) (fun sent =>
+  M.bind (evalContract env .post (.trans t) step.event) (fun _ =>
+  M.bind (evalContract env .inv (.trans t) step.event) (fun _ =>
+  M.bind (M.modify (fun st => { st with idleTime := assocSet t.source st.time st.idleTime })) (fun _ =>
+  M.bind (raiseMeta env { name := "transition processed",
+                          data := [("source", .str t.source), ("target", optNameVal t.target),
+                                   ("event", optEventVal step.event)] }) (fun _ =>
+  M.pure sent))))))))
+
+/-- `list(map(self._statechart.state_for, names))` -/
+def stateObjs : List Name → M σ ω (List StateDef)
+  | [] => M.pure []
+  | n :: ns => M.bind (stateObj env n) (fun s => M.bind (stateObjs ns) (fun ss => M.pure (s :: ss)))
 
 def collect {γ : Type} (f : γ → M σ ω (List Sent)) : List γ → M σ ω (List Sent)
-  | [] => pure []
-  | x :: xs => do
-    let a ← f x
-    let b ← collect f xs
-    pure (a ++ b)
+  | [] => M.pure []
+  | x :: xs => M.bind (f x) (fun a => M.bind (collect f xs) (fun b => M.pure (a ++ b)))
+
+/-- the loop `for event in sent_events: self._raise_event(event); self._sent_events.append(event)` -/
+def raiseAll (sent : List Sent) : M σ ω Unit :=
+  M.forEach (fun ev =>
+    M.bind (raiseSent env ev) (fun _ =>
+      M.modify (fun st => { st with sentEvents := st.sentEvents ++ [ev] }))) sent
 
 /-- `_apply_step` -/
-def applyStep (step : Micro) : M σ ω Micro := do
-  let entered ← step.entered.mapM (stateObj env)
-  let exited ← step.exited.mapM (stateObj env)
-  let st0 ← M.get
-  let cfg0 := st0.config
-  let s1 ← collect (exitState env cfg0 step) exited
-  let s2 ← match step.transition with
-    | some t => fireTransition env step t
-    | none => pure []
-  let s3 ← collect (enterState env step) entered
-  let sent := s1 ++ s2 ++ s3
-  M.forEach (fun ev => do
-    raiseSent env ev
-    M.modify (fun st => { st with sentEvents := st.sentEvents ++ [ev] })) sent
-  pure { step with sent := sent }
+def applyStep (step : Micro) : M σ ω Micro :=
+  M.bind (stateObjs env step.entered) (fun entered =>
+  M.bind (stateObjs env step.exited) (fun exited =>
+  M.bind M.get (fun st0 =>
+  M.bind (collect (exitState env st0.config step) exited) (fun s1 =>
+  M.bind (match step.transition with
+          | some t => fireTransition env step t
+          | none => M.pure []) (fun s2 =>
+  M.bind (collect (enterState env step) entered) (fun s3 =>
+  M.bind (raiseAll env (s1 ++ s2 ++ s3)) (fun _ =>
+  M.pure { step with sent := s1 ++ s2 ++ s3 })))))))
 
 /-- `_stabilize` (the `while step is not None` loop, with fuel) -/
 def stabilize : Nat → M σ ω (List Micro)
   | 0 => M.throw .fuel
-  | n+1 => do
-    let st ← M.get
-    match stabilizationStep env.chart st.memory st.config with
-    | none => pure []
-    | some s => do
-      let a ← applyStep env s
-      let rest ← stabilize n
-      pure (a :: rest)
+  | n+1 =>
+    M.bind M.get (fun st =>
+      match stabilizationStep env.chart st.memory st.config with
+      | none => M.pure []
+      | some s =>
+        M.bind (applyStep env s) (fun a =>
+          M.bind (stabilize n) (fun rest => M.pure (a :: rest))))
 
 /-- guard evaluations of `_select_transitions`: log them, stop at the first that raises -/
 def logGuards (st : IState σ) (ev : Option Event) : List (Trans × Bool) → M σ ω Unit
-  | [] => pure ()
-  | (t, exposed) :: rest => do
-    let e := if exposed then ev else none
-    let r := env.E.guard st t e
-    M.emit (.guard t.id e r)
-    match r with
-    | none => M.throw .codeError
-    | some _ => logGuards st ev rest
+  | [] => M.pure ()
+  | (t, exposed) :: rest =>
+    M.bind (M.emit (.guard t.id (if exposed then ev else none) (env.E.guard st t (if exposed then ev else none)))) (fun _ =>
+      match env.E.guard st t (if exposed then ev else none) with
+      | none => M.throw .codeError
+      | some _ => logGuards st ev rest)
+
+/-- the truth value `_select_transitions` uses for a transition:
+    `transition.guard is None or evaluate_guard(transition, exposed_event)` -/
+def guardOk {σ : Type} (E : Evaluator σ) (st : IState σ) (ev : Option Event) (t : Trans) (exposed : Bool) : Bool :=
+  match t.guard with
+  | none => true
+  | some _ => (E.guard st t (if exposed then ev else none)) == some true
 
 /-- `_compute_steps` -/
-def computeSteps : M σ ω (List Micro) := do
-  let st ← M.get
-  if !st.initialized then
-    M.modify (fun st => { st with initialized := true })
-    return [{ entered := env.chart.root.toList }]
-  let ev := peekEvent st
-  let ok := fun (t : Trans) (exposed : Bool) =>
-    match t.guard with
-    | none => true
-    | some _ => (env.E.guard st t (if exposed then ev else none)) == some true
-  let sel := selectTransitions env.chart st.config (ev.map (·.name)) ok
-  logGuards env st ev sel.calls
-  if sel.selected.isEmpty then
-    match ev with
-    | none => return []
-    | some e => return [{ event := some e }]
-  match sortTransitions env.chart sel.selected with
-  | .error .nonDeterminism => M.throw .nonDeterminism
-  | .error .conflicting => M.throw .conflicting
-  | .ok ts =>
-    let ev' := match ts.head? with
-      | some t => if t.event.isNone then none else ev
-      | none => ev
-    return createSteps env.chart st.config ev' ts
+def computeSteps : M σ ω (List Micro) :=
+  M.bind M.get (fun st =>
+    if !st.initialized then
+      M.bind (M.modify (fun st => { st with initialized := true }))
+        (fun _ => M.pure [{ entered := env.chart.root.toList }])
+    else
+      let ev := peekEvent st
+      let sel := selectTransitions env.chart st.config (ev.map (·.name)) (guardOk env.E st ev)
+      M.bind (logGuards env st ev sel.calls) (fun _ =>
+        if sel.selected.isEmpty then
+          match ev with
+          | none => M.pure []
+          | some e => M.pure [{ event := some e }]
+        else
+          match sortTransitions env.chart sel.selected with
+          | .error .nonDeterminism => M.throw .nonDeterminism
+          | .error .conflicting => M.throw .conflicting
+          | .ok ts =>
+            let ev' := match ts.head? with
+              | some t => if t.event.isNone then none else ev
+              | none => ev
+            M.pure (createSteps env.chart st.config ev' ts)))
 
 def applyAll : List Micro → M σ ω (List Micro)
-  | [] => pure []
-  | s :: rest => do
-    let a ← applyStep env s
-    let stab ← stabilize env env.stabFuel
-    let more ← applyAll rest
-    pure (a :: stab ++ more)
+  | [] => M.pure []
+  | s :: rest =>
+    M.bind (applyStep env s) (fun a =>
+      M.bind (stabilize env env.stabFuel) (fun stab =>
+        M.bind (applyAll rest) (fun more => M.pure (a :: stab ++ more))))
+
+/-- the end of `execute_once`: state invariants of the active states, then `step ended` -/
+def finishStep (ms : Option MacroStep) : M σ ω (Option MacroStep) :=
+  M.bind M.get (fun st =>
+  M.bind (M.forEach (fun n =>
+      M.bind (stateObj env n) (fun s => evalContract env .inv (.state s) (ms.bind (·.event))))
+    (env.chart.sortConfig st.config)) (fun _ =>
+  M.bind (raiseMeta env { name := "step ended", data := [] }) (fun _ =>
+  M.pure ms)))
+
+/-- consume the event that triggers the step (if any), apply the computed steps -/
+def runSteps (computed : List Micro) : M σ ω (Option MacroStep) :=
+  match computed with
+  | [] => M.pure none
+  | first :: _ =>
+    M.bind (if first.event.isSome then
+              M.bind M.get (fun st =>
+                M.bind (M.modify (fun st' => (popEvent st').2)) (fun _ =>
+                  raiseMeta env { name := "event consumed", data := [("event", optEventVal (popEvent st).1)] }))
+            else M.pure ()) (fun _ =>
+    M.bind (applyAll env computed) (fun executed =>
+    M.bind M.get (fun st =>
+    M.pure (some { time := st.time, steps := executed }))))
 
 /-- `execute_once`; `clock` is the value `self.clock.time` returns when it is read -/
-def executeOnce (clock : Int) : M σ ω (Option MacroStep) := do
-  M.modify (fun st => { st with time := clock, sentEvents := [] })
-  raiseMeta env { name := "step started", data := [("time", .int clock)] }
-  let computed ← computeSteps env
-  let ms ← match computed with
-    | [] => pure none
-    | first :: _ => do
-      if first.event.isSome then
-        let st ← M.get
-        let (e, st') := popEvent st
-        M.modify (fun _ => st')
-        raiseMeta env { name := "event consumed", data := [("event", optEventVal e)] }
-      let executed ← applyAll env computed
-      let st ← M.get
-      pure (some { time := st.time, steps := executed })
-  let st ← M.get
-  M.forEach (fun n => do
-    let s ← stateObj env n
-    evalContract env .inv (.state s) (ms.bind (·.event))) (env.chart.sortConfig st.config)
-  raiseMeta env { name := "step ended", data := [] }
-  pure ms
+def executeOnce (clock : Int) : M σ ω (Option MacroStep) :=
+  M.bind (M.modify (fun st => { st with time := clock, sentEvents := [] })) (fun _ =>
+  M.bind (raiseMeta env { name := "step started", data := [("time", .int clock)] }) (fun _ =>
+  M.bind (computeSteps env) (fun computed =>
+  M.bind (runSteps env computed) (fun ms =>
+  finishStep env ms))))
 
 /-- `execute(max_steps)`: loop with fuel (`maxSteps ≤ 0` = unbounded) -/
 def executeLoop (clock : Unit → M σ ω Int) (maxSteps : Int) : Nat → Nat → M σ ω (List MacroStep)
   | 0, _ => M.throw .fuel
-  | fuel+1, i => do
-    let t ← clock ()
-    let r ← executeOnce env t
-    match r with
-    | none => pure []
-    | some m =>
-      if 0 < maxSteps && maxSteps == (i + 1 : Nat) then pure [m]
-      else do
-        let rest ← executeLoop clock maxSteps fuel (i + 1)
-        pure (m :: rest)
+  | fuel+1, i =>
+    M.bind (clock ()) (fun t =>
+      M.bind (executeOnce env t) (fun r =>
+        match r with
+        | none => M.pure []
+        | some m =>
+          if 0 < maxSteps && maxSteps == (i + 1 : Nat) then M.pure [m]
+          else M.bind (executeLoop clock maxSteps fuel (i + 1)) (fun rest => M.pure (m :: rest))))
 
 end
 end Sismic
